@@ -39,6 +39,51 @@ type cssBox struct {
 	Origin   *origin `json:"origin,omitempty"`
 	Singular bool    `json:"singular,omitempty"`
 	Opacity  bool    `json:"opacity,omitempty"` // informative: the box has opacity < 1
+	// How the transform / transform-origin declarations reach the element (the cascade delivers the
+	// same *declared* value to every element a rule matches; the *computed* value — font-relative
+	// lengths made absolute, CSS Values 3 §5.1.1 — is per element):
+	//   id       a rule `#id{…}` of its own (the only form generated before the domain was widened)
+	//   style    the element's style attribute
+	//   class | attr | type | group   one rule shared by several elements of the document
+	//            (`.t0{…}`, `[data-t="0"]{…}`, `section{…}`, `#b0,#b3{…}`)
+	//   inherit  `transform: inherit` (the parent's computed value: its font-relative lengths were
+	//            made absolute against the font size they were computed with, percentages stay)
+	Via string `json:"via,omitempty"`
+	// style sheet holding the rule: "style" (<style> element), "link" (<link rel=stylesheet>), "user"
+	// (user-origin sheet); empty for a style attribute
+	Sheet string `json:"sheet,omitempty"`
+	// shared declaration: index of the first element (tree order) matched by the same rule, and the
+	// rank of this element among them (0 = first)
+	Shared     bool `json:"shared,omitempty"`
+	ShareFirst int  `json:"share_first,omitempty"`
+	ShareRank  int  `json:"share_rank,omitempty"`
+	// font size against which the font-relative lengths of the transform list / of the origin
+	// resolve: the element's own, except for an inherited value (0 = FS; inputs recorded before
+	// these fields existed)
+	TFS           float64 `json:"tfs,omitempty"`
+	OFS           float64 `json:"ofs,omitempty"`
+	OriginInherit bool    `json:"origin_inherit,omitempty"`
+}
+
+func (b cssBox) tfs() float64 {
+	if b.TFS > 0 {
+		return b.TFS
+	}
+	return b.FS
+}
+
+func (b cssBox) ofs() float64 {
+	if b.OFS > 0 {
+		return b.OFS
+	}
+	return b.FS
+}
+
+func (b cssBox) via() string {
+	if b.Via == "" {
+		return "id"
+	}
+	return b.Via
 }
 
 type cssIn struct {
@@ -47,6 +92,9 @@ type cssIn struct {
 	PageM  float64  `json:"page_margin"`
 	RootFS float64  `json:"root_fs"`
 	Boxes  []cssBox `json:"boxes"`
+	// user-origin style sheet and resources served under mem://doc/ (linked style sheet)
+	UserCSS string            `json:"user_css,omitempty"`
+	Files   map[string]string `json:"files,omitempty"`
 }
 
 // ---- generator ------------------------------------------------------------------------------------
@@ -57,24 +105,99 @@ func colorOf(c [3]int) string { return "#" + hex2(c[0]) + hex2(c[1]) + hex2(c[2]
 
 func px(v float64) string { return fmt.Sprintf("%gpx", v) }
 
-// genCSSDoc builds a document of 1–5 boxes.  formIdx ≥ 0 forces the first box to carry a
+// sharedDecl is one declaration block `transform: …[; transform-origin: …]` carried by a rule that
+// matches several elements of the document.  The declared value is spelled (and parsed) once; every
+// matched element computes it against its own font size and border box.
+type sharedDecl struct {
+	sel      string // class | attr | type | group
+	sheet    string // style | link | user
+	fns      []fn
+	none     bool
+	singular bool
+	origin   *origin
+	decl     string
+	members  []int
+	usedFS   map[float64]bool
+}
+
+var fsPool = []float64{8, 10, 12, 16, 20, 24, 30}
+
+func pickSheet(r *rand.Rand) string {
+	switch r.Intn(10) {
+	case 0, 1:
+		return "link"
+	case 2, 3:
+		return "user"
+	}
+	return "style"
+}
+
+// genCSSDoc builds a document of 1–12 boxes.  formIdx ≥ 0 forces the first box to carry a
 // single-function list of that form (exhaustive sweep over the function forms × leading cases).
 func genCSSDoc(r *rand.Rand, formIdx int) cssIn {
 	in := cssIn{Mode: "css", PageM: pick(r, []float64{0, 10, 25}), RootFS: pick(r, []float64{16, 20, 10})}
 	type extra struct {
-		style  string
+		style  string // geometry and paint: always in the element's own rule of the <style> element
+		attrs  string // class / data-t / style attributes
+		tag    string
 		kids   []int
 		border float64
 	}
 	var ex []extra
+	sheets := map[string]*strings.Builder{"style": {}, "link": {}, "user": {}}
 	nTop := 1 + r.Intn(3)
+
+	// shared declarations of the document (half of the documents have one or two)
+	var shared []*sharedDecl
+	nShared := 0
+	switch r.Intn(10) {
+	case 0, 1, 2, 3:
+		nShared = 1
+	case 4:
+		nShared = 2
+	}
+	for i := 0; i < nShared; i++ {
+		sd := &sharedDecl{sel: pick(r, []string{"class", "class", "attr", "type", "group"}), sheet: pickSheet(r), usedFS: map[float64]bool{}}
+		switch {
+		case r.Intn(20) == 0:
+			sd.none = true
+		case r.Intn(20) == 0:
+			sd.singular = true
+			sd.fns = genCSSList(r, true)
+		case r.Intn(2) == 0:
+			sd.fns = genCSSListElemDep(r)
+		default:
+			sd.fns = genCSSList(r, false)
+		}
+		var decl []string
+		if sd.none {
+			decl = append(decl, "transform:"+pick(r, []string{"none", "none", "NONE", "initial"}))
+		} else {
+			decl = append(decl, "transform:"+pick(r, []string{"", " "})+cssListText(r, sd.fns))
+		}
+		if r.Intn(2) == 0 {
+			o := genOrigin(r)
+			sd.origin = &o
+			decl = append(decl, "transform-origin:"+o.Text)
+			if r.Intn(2) == 0 {
+				decl[0], decl[1] = decl[1], decl[0]
+			}
+		}
+		sd.decl = strings.Join(decl, ";")
+		shared = append(shared, sd)
+	}
+	if nShared > 0 {
+		nTop = 2 + r.Intn(3)
+	}
+
 	addBox := func(parent int, depth int) int {
 		k := len(in.Boxes)
 		b := cssBox{ID: fmt.Sprintf("b%d", k), Parent: parent, BG: [3]int{20 + k*7, 40 + k*11, 60 + k*13}}
+		e := extra{tag: "div"}
 		border := pick(r, []float64{0, 0, 1, 2, 4})
 		pad := pick(r, []float64{0, 3, 5})
 		w, h := float64(20+r.Intn(100)), float64(10+r.Intn(70))
-		b.FS = pick(r, []float64{8, 10, 16, 20})
+		b.FS = pick(r, fsPool)
 		b.W, b.H = w+2*(border+pad), h+2*(border+pad)
 		var st strings.Builder
 		parentAbs := parent >= 0 && in.Boxes[parent].Kind == "abs"
@@ -128,6 +251,8 @@ func genCSSDoc(r *rand.Rand, formIdx int) cssIn {
 		case "table", "table-cell", "flex":
 			fmt.Fprintf(&st, "display:%s;", kind)
 		case "inline":
+			e.tag = "span"
+			st.WriteString("display:inline;")
 		}
 		if r.Intn(8) == 0 && kind != "inline" {
 			// an opacity group: the box is drawn on its own canvas
@@ -137,12 +262,17 @@ func genCSSDoc(r *rand.Rand, formIdx int) cssIn {
 		if kind != "inline" {
 			fmt.Fprintf(&st, "width:%s;height:%s;margin:%s 0 0 %s;", px(w), px(h), px(mt), px(ml))
 		}
-		fmt.Fprintf(&st, "border:%s solid %s;padding:%s;background:%s;font-size:%s;", px(border), colorOf([3]int{200 + k, 10 + k*3, 10 + k*5}), px(pad), colorOf(b.BG), px(b.FS))
-		// transform
+
+		// transform: where the value comes from
+		var sd *sharedDecl
 		switch {
 		case k == 0 && formIdx >= 0:
 			forms := allowedCSSForms()
 			b.Fns = []fn{genCSSFn(r, forms[formIdx%len(forms)])}
+		case parent >= 0 && r.Intn(8) == 0:
+			b.Via = "inherit"
+		case len(shared) > 0 && r.Intn(5) < 3:
+			sd = pick(r, shared)
 		case r.Intn(12) == 0:
 			b.None = true
 		case r.Intn(14) == 0 && kind != "inline":
@@ -153,27 +283,124 @@ func genCSSDoc(r *rand.Rand, formIdx int) cssIn {
 		default:
 			b.Fns = genCSSList(r, false)
 		}
-		if len(b.Fns) > 0 || b.None || r.Intn(6) == 0 {
-			if r.Intn(3) != 0 {
+		var decl []string // the element's own declarations
+		switch {
+		case b.Via == "inherit":
+			// the computed value of the parent: the same functions, font-relative lengths resolved
+			// against the font size the parent's value was computed with
+			p := in.Boxes[parent]
+			b.Fns, b.None, b.Singular, b.TFS = p.Fns, p.None, p.Singular, p.tfs()
+			decl = append(decl, "transform:"+pick(r, []string{"inherit", "inherit", "INHERIT"}))
+			switch r.Intn(3) {
+			case 0:
+				if p.Origin != nil {
+					o := *p.Origin
+					b.Origin, b.OFS = &o, p.ofs()
+				}
+				b.OriginInherit = true
+				decl = append(decl, "transform-origin:inherit")
+			case 1:
 				o := genOrigin(r)
 				b.Origin = &o
+				decl = append(decl, "transform-origin:"+o.Text)
+			}
+		case sd != nil:
+			b.Via, b.Sheet, b.Shared = sd.sel, sd.sheet, true
+			b.Fns, b.None, b.Singular = sd.fns, sd.none, sd.singular
+			// the members of a shared declaration get different font sizes while the pool lasts
+			for try := 0; try < 20 && sd.usedFS[b.FS]; try++ {
+				b.FS = pick(r, fsPool)
+			}
+			sd.usedFS[b.FS] = true
+			b.ShareRank = len(sd.members)
+			b.ShareFirst = k
+			if len(sd.members) > 0 {
+				b.ShareFirst = sd.members[0]
+			}
+			sd.members = append(sd.members, k)
+			switch {
+			case sd.origin != nil:
+				o := *sd.origin
+				b.Origin = &o
+			case r.Intn(3) == 0:
+				// the rule sets the transform only; the origin is the element's own
+				o := genOrigin(r)
+				b.Origin = &o
+				decl = append(decl, "transform-origin:"+o.Text)
+			}
+			si := 0
+			for i, x := range shared {
+				if x == sd {
+					si = i
+				}
+			}
+			switch sd.sel {
+			case "class":
+				e.attrs += pick(r, []string{fmt.Sprintf(" class=t%d", si), fmt.Sprintf(` class="x t%d"`, si), fmt.Sprintf(` class="t%d y"`, si)})
+			case "attr":
+				e.attrs += fmt.Sprintf(` data-t="%d"`, si)
+			case "type":
+				e.tag = []string{"section", "article"}[si%2]
+			}
+		default:
+			if len(b.Fns) > 0 || b.None || r.Intn(6) == 0 {
+				if r.Intn(3) != 0 {
+					o := genOrigin(r)
+					b.Origin = &o
+				}
+			}
+			if b.None {
+				decl = append(decl, "transform:"+pick(r, []string{"none", "none", "NONE", "initial"}))
+			} else if len(b.Fns) > 0 {
+				decl = append(decl, "transform:"+pick(r, []string{"", " "})+cssListText(r, b.Fns))
+			}
+			if b.Origin != nil {
+				decl = append(decl, "transform-origin:"+b.Origin.Text)
+			}
+			if len(decl) == 2 && r.Intn(2) == 0 {
+				decl[0], decl[1] = decl[1], decl[0]
 			}
 		}
-		var decl []string
-		if b.None {
-			decl = append(decl, "transform:"+pick(r, []string{"none", "NONE"}))
-		} else if len(b.Fns) > 0 {
-			decl = append(decl, "transform:"+pick(r, []string{"", " "})+cssListText(r, b.Fns))
+		fmt.Fprintf(&st, "border:%s solid %s;padding:%s;background:%s;font-size:%s;", px(border), colorOf([3]int{200 + k, 10 + k*3, 10 + k*5}), px(pad), colorOf(b.BG), px(b.FS))
+		// the element's own declarations: in its rule of the <style> element (as before), in a rule
+		// of another sheet, or in its style attribute
+		if len(decl) > 0 {
+			own := strings.Join(decl, ";")
+			vehicle := "style"
+			if !(k == 0 && formIdx >= 0) {
+				switch r.Intn(10) {
+				case 0, 1, 2:
+					vehicle = "attr"
+				case 3:
+					vehicle = "link"
+				case 4:
+					vehicle = "user"
+				}
+			}
+			if b.Via == "" {
+				b.Via = "id"
+			}
+			switch vehicle {
+			case "attr":
+				e.attrs += ` style="` + own + `"`
+				if !b.Shared && b.Via == "id" {
+					b.Via = "style"
+				}
+			case "style":
+				st.WriteString(own)
+				if !b.Shared {
+					b.Sheet = "style"
+				}
+			default:
+				fmt.Fprintf(sheets[vehicle], "#%s{%s}\n", b.ID, own)
+				if !b.Shared {
+					b.Sheet = vehicle
+				}
+			}
 		}
-		if b.Origin != nil {
-			decl = append(decl, "transform-origin:"+b.Origin.Text)
-		}
-		if len(decl) == 2 && r.Intn(2) == 0 {
-			decl[0], decl[1] = decl[1], decl[0]
-		}
-		st.WriteString(strings.Join(decl, ";"))
+		e.style, e.border = st.String(), border
 		in.Boxes = append(in.Boxes, b)
-		ex = append(ex, extra{style: st.String(), border: border})
+		ex = append(ex, e)
 		if parent >= 0 {
 			ex[parent].kids = append(ex[parent].kids, k)
 		}
@@ -196,8 +423,37 @@ func genCSSDoc(r *rand.Rand, formIdx int) cssIn {
 			}
 		}
 	}
+	// the shared rules
+	for si, sd := range shared {
+		var sel string
+		switch sd.sel {
+		case "class":
+			sel = fmt.Sprintf(".t%d", si)
+		case "attr":
+			sel = fmt.Sprintf(`[data-t="%d"]`, si)
+		case "type":
+			sel = []string{"section", "article"}[si%2]
+		case "group":
+			var ids []string
+			for _, m := range sd.members {
+				ids = append(ids, "#"+in.Boxes[m].ID)
+			}
+			sel = strings.Join(ids, pick(r, []string{",", ", ", " ,\n"}))
+		}
+		if sel != "" {
+			fmt.Fprintf(sheets[sd.sheet], "%s{%s}\n", sel, sd.decl)
+		}
+	}
 	var sb strings.Builder
-	fmt.Fprintf(&sb, "<html><head><style>\n@page{size:500px 800px;margin:%s}\nhtml{font-size:%s}\nbody{margin:0}\n", px(in.PageM), px(in.RootFS))
+	sb.WriteString("<html><head>")
+	if sheets["link"].Len() > 0 {
+		in.Files = map[string]string{"s.css": sheets["link"].String()}
+		sb.WriteString(`<link rel=stylesheet href="s.css">`)
+	}
+	in.UserCSS = sheets["user"].String()
+	// font-family Ahem: 1ex = 0.8em, 1ch = 1em
+	fmt.Fprintf(&sb, "<style>\n@page{size:500px 800px;margin:%s}\nhtml{font-size:%s}\nbody{margin:0;font-family:Ahem}\n", px(in.PageM), px(in.RootFS))
+	sb.WriteString(sheets["style"].String())
 	for k, b := range in.Boxes {
 		fmt.Fprintf(&sb, "#%s{%s}\n", b.ID, ex[k].style)
 	}
@@ -205,18 +461,14 @@ func genCSSDoc(r *rand.Rand, formIdx int) cssIn {
 	var emit func(k int)
 	emit = func(k int) {
 		b := in.Boxes[k]
-		tag := "div"
-		if b.Kind == "inline" {
-			tag = "span"
-		}
-		fmt.Fprintf(&sb, "<%s id=%s>", tag, b.ID)
+		fmt.Fprintf(&sb, "<%s id=%s%s>", ex[k].tag, b.ID, ex[k].attrs)
 		if b.Kind == "inline" {
 			sb.WriteString("x")
 		}
 		for _, c := range ex[k].kids {
 			emit(c)
 		}
-		fmt.Fprintf(&sb, "</%s>", tag)
+		fmt.Fprintf(&sb, "</%s>", ex[k].tag)
 	}
 	for _, k := range tops {
 		emit(k)
@@ -334,11 +586,22 @@ func checkCSS(raw json.RawMessage) fw.Result {
 	if err := json.Unmarshal(raw, &in); err != nil {
 		return fw.Result{Verdict: fw.Inconclusive, Msg: err.Error()}
 	}
+	for k := range in.Boxes {
+		// a non-replaced inline box is not a transformable element (CSS Transforms 1 §2): a list
+		// that a shared rule gives it, singular or not, has no effect at all
+		if in.Boxes[k].Kind == "inline" {
+			in.Boxes[k].Singular = false
+		}
+	}
 	fonts, err := sharedFonts()
 	if err != nil {
 		return fw.Result{Verdict: fw.Inconclusive, Msg: "fonts: " + err.Error()}
 	}
-	r, err := wr.Render(wr.Opts{HTML: in.HTML, Fonts: fonts})
+	opts := wr.Opts{HTML: in.HTML, Fonts: fonts, Files: in.Files}
+	if in.UserCSS != "" {
+		opts.UserCSS = []string{in.UserCSS}
+	}
+	r, err := wr.Render(opts)
 	if err != nil {
 		return fw.Result{Verdict: fw.Inconclusive, Msg: "render: " + err.Error()}
 	}
@@ -436,7 +699,17 @@ func checkCSS(raw json.RawMessage) fw.Result {
 				}
 				t = strings.Join(ts, " ")
 			}
-			return fmt.Sprintf("box #%s (%s) transform: %q transform-origin: %q", b.ID, b.Kind, t, o)
+			how := b.via()
+			if b.Shared {
+				how = fmt.Sprintf("%s rule shared with %d earlier element(s), first #%s font-size %gpx", b.via(), b.ShareRank, in.Boxes[b.ShareFirst].ID, in.Boxes[b.ShareFirst].FS)
+			}
+			if b.Via == "inherit" {
+				how = fmt.Sprintf("inherit, value computed at font-size %gpx", b.tfs())
+			}
+			if b.OriginInherit {
+				o += fmt.Sprintf(" (inherit, computed at font-size %gpx)", b.ofs())
+			}
+			return fmt.Sprintf("box #%s (%s, font-size %gpx, declared through: %s) transform: %q transform-origin: %q", b.ID, b.Kind, b.FS, how, t, o)
 		}
 		if hidden[k] || b.Singular {
 			// CSS Transforms 1 §5: "If a transform function causes the current transformation matrix
@@ -480,12 +753,16 @@ func checkCSS(raw json.RawMessage) fw.Result {
 			if cnd, err := listCondition(b.Fns, false); err != nil || cnd > 100*maxCondition {
 				return fw.Result{Verdict: fw.Skip, Msg: "nearly singular transform list: outside the domain"}
 			}
-			c := lenCtx{W: w, H: h, FS: b.FS, RootFS: in.RootFS}
+			// font-relative lengths are made absolute when the value is computed — against the
+			// element's own font size, or, for an inherited value, the font size of the element it
+			// was computed for; percentages always refer to this box
+			c := lenCtx{W: w, H: h, FS: b.tfs(), RootFS: in.RootFS}
+			co := lenCtx{W: w, H: h, FS: b.ofs(), RootFS: in.RootFS}
 			ox, oy := w/2, h/2 // initial value 50% 50%
 			if b.Origin != nil {
 				var e1, e2 error
-				ox, e1 = c.length(b.Origin.X, w)
-				oy, e2 = c.length(b.Origin.Y, h)
+				ox, e1 = co.length(b.Origin.X, w)
+				oy, e2 = co.length(b.Origin.Y, h)
 				if e1 != nil || e2 != nil {
 					return fw.Result{Verdict: fw.Inconclusive, Msg: fmt.Sprint("origin: ", e1, e2)}
 				}
@@ -559,6 +836,32 @@ func checkCSS(raw json.RawMessage) fw.Result {
 				res.Count("css_nested_chains", 1)
 			}
 			res.Count("css_kind_"+b.Kind, 1)
+			res.Count("css_via_"+b.via(), 1)
+			if b.Sheet != "" {
+				res.Count("css_sheet_"+b.Sheet, 1)
+			}
+			if b.Shared {
+				res.Count("css_shared_lists_checked", 1)
+				if b.ShareRank > 0 {
+					res.Count("css_shared_later_member", 1)
+					if hasFontRel(b.Fns) && b.FS != in.Boxes[b.ShareFirst].FS {
+						// the same declared value, a different computed value
+						res.Count("css_shared_fontrel_other_fs", 1)
+					}
+					if hasPercent(b.Fns) {
+						res.Count("css_shared_percent", 1)
+					}
+				}
+			}
+			if b.Via == "inherit" {
+				res.Count("css_inherit_checked", 1)
+				if hasFontRel(b.Fns) && b.tfs() != b.FS {
+					res.Count("css_inherit_fontrel_other_fs", 1)
+				}
+				if b.OriginInherit {
+					res.Count("css_inherit_origin", 1)
+				}
+			}
 			if evs[s.at].Cv != cv {
 				res.Count("css_in_opacity_group", 1)
 			}
